@@ -587,6 +587,158 @@ def explore(S, docs, tabs=(2,), prop='C03', widths=(0, 40, 1 << 30)):
     return found, coverage
 
 
+RANGE_DOCS = [
+    '$ #a.b(\n  1, 2\n).c(2) + x $\n', '$ #data.filter(pred).map(func).sum() + 1 $\n', '$ vec(#a.b(\n1, 2).c(3) x, y) $\n', '#let f(x) = {\n  let y = g(x,\n  1)\n  y\n}\n', 'a #f(1,\n 2) b\n\nc\n',
+    '= H\n- a #f( 1 ,2 )\n  - b\n', '#table(columns: 2, [a], [ b],\n [c])\n', '$ mat(1, 2; 3, 4) + f(x, y) $\n', '#f[a #g( 1 ) b][c]\n', '#{\n  if a { b } else { c }\n  for x in y { z( 1 ,2) }\n}\n',
+    '#import "a.typ": c ,b\n#show: it => it\n', '#let x = (a: 1,\n  b: (2, 3))\n', 'first\n\nsecond #x.y( 1 ).z\n', '$ a_#f( 1 ) + b^(c  d) $\n', '#f(x => x +\n 1, ..y)\n', '#(a.b)( 1 )[c]\n',
+]
+
+
+def explore_range(S, docs, widths=(0, 40, 1 << 30), max_ranges=14):
+    """Typstyle::format_source_range from its MIR (cover search, mode inference, the converters: nothing opaque) on whole documents for the span of every
+    node and a few ranges inside; the text is laid out by the interpreted renderer, spliced into the source and handed to the real parser: it must
+    parse and have the tree of the source modulo layout (C13 as stated, at representative widths)."""
+    from mirsym.models_typst import Source
+    from mirsym.models_std import OStr
+    from .conserve import source_of
+    kt = T.KT
+    core = S.core
+    fn = S.find_fn(core, 'Typstyle::format_source_range')
+    found = []
+    tasks = []
+    cov = dict(docs=0, tasks=0, decided=0, gaps=[])
+
+    def spans(tree, start=0, out=None):
+        out = [] if out is None else out
+        kind, x = tree
+        ln = len(source_of(tree).encode('utf-8'))
+        out.append((start, start + ln, kind))
+        if isinstance(x, list):
+            p = start
+            for c in x:
+                spans(c, p, out)
+                p += len(source_of(c).encode('utf-8'))
+        return out
+    for src in docs:
+        tree = deep.tree_of(S, src)
+        if tree is None:
+            cov['gaps'].append('not parsed: %r' % src)
+            continue
+        cov['docs'] += 1
+        n_src = norm_tree(tree)
+        sp = [(a, b) for a, b, k in spans(tree) if b > a and k not in ('Space', 'Parbreak', 'Markup') or k == 'Markup' and a > 0]
+        cand = []
+        for a, b in sp:
+            for r in ((a, b), (a, a), (a + 1, b) if b - a > 2 else None):
+                if r and r not in cand:
+                    cand.append(r)
+        # spread over the document
+        step = max(1, len(cand) // max_ranges)
+        cand = cand[::step][:max_ranges]
+        bs = src.encode('utf-8')
+        for (a, b) in cand:
+            if any((bs[i] & 0xC0) == 0x80 for i in (a, b) if i < len(bs)):
+                continue
+            for width in widths:
+                def body(ctx, tree=tree, src=src, a=a, b=b, width=width, n_src=n_src, bs=bs):
+                    m = S.machine(core, STD, ctx)
+                    m.max_depth = 300
+                    root = deep.build(ctx, tree, kt, [0], concrete_ws=True)
+                    cfg = Agg('Config', None, (2, width, 2, False), pp.CFG_NAMES)
+                    typ = Agg('Typstyle', None, (cfg,), ('config',))
+                    info = dict(source=src, start=a, end=b, width=width, tab=2)
+                    try:
+                        res = m.call_fn(fn, [m.heap.alloc(typ), Source(Str.lit(src), root), Agg('Range', None, (a, b), ('start', 'end'))])
+                    except Panic as p:
+                        S.absorb(m)
+                        ctx.must_hold(False, 'C13:range-formatting-panics', lambda mdl: dict(info, panic=p.msg))
+                        return
+                    S.absorb(m)
+                    if res.variant == 'Err':
+                        ctx.must_hold(False, 'C13:well-formed-source-refused', lambda mdl: info)
+                        return
+                    r, txt = res.fields[0].fields
+                    if not (isinstance(txt, OStr) and txt.term[0] == 'render'):
+                        ctx.must_hold(False, 'C13:result-not-rendered-document', lambda mdl: info)
+                        return
+                    doc = txt.term[1].deps[0]
+                    rs, re_ = simp(r.fields[0]), simp(r.fields[1])
+                    try:
+                        text = render_text(doc, width)
+                    except SymbolicText:
+                        return
+                    seg = bs[a:min(b, len(bs))].decode('utf-8', 'replace')
+                    ws_ = ''.join(WS_SET)
+                    core_ = seg.strip(ws_)
+                    ta = a + len(seg[:len(seg) - len(seg.lstrip(ws_))].encode('utf-8'))
+                    tb = ta + len(core_.encode('utf-8'))
+                    ctx.must_hold(core_ == '' or (rs <= ta and tb <= re_), 'C13:returned-range-does-not-cover-the-request', lambda mdl: dict(info, returned=(rs, re_), trimmed=(ta, tb)))
+                    out = bs[:rs].decode('utf-8', 'replace') + text + bs[re_:].decode('utf-8', 'replace')
+                    t_out = deep.tree_of(S, out)
+                    if t_out is None:
+                        ctx.must_hold(False, 'C13:spliced-text-does-not-parse', lambda mdl: dict(info, returned=(rs, re_), text=text, spliced=out))
+                        return
+                    d = first_difference(n_src, norm_tree(t_out))
+                    ctx.must_hold(d is None, 'C13:spliced-text-has-another-syntax-tree', lambda mdl: dict(info, returned=(rs, re_), text=text, spliced=out, difference=d))
+                    ctx.witness('range spliced and parsed')
+                tasks.append(('range[%s,%d..%d,width %d]' % (show(src)[:30], a, b, width),
+                              'format_source_range(%s, %d..%d) at width %d: the result spliced into the source parses and has the same tree modulo layout' % (show(src)[:50], a, b, width),
+                              body, dict(document=src[:80], start=a, end=b, width=width)))
+    cov['tasks'] = len(tasks)
+    for (ob, viol), task in zip(S.explore_batch(tasks), tasks):
+        if ob.status.startswith('inconclusive'):
+            S.inconclusive[:] = [x for x in S.inconclusive if not x.startswith(ob.name + ':')]
+            cov['gaps'].append('%s: %s' % (ob.name, ob.status[:160]))
+        else:
+            cov['decided'] += 1
+        for lab, mdl, info in viol:
+            found.append((lab, info))
+    S.validation['range_documents'] = dict(cov, gaps=cov['gaps'][:6], n_gaps=len(cov['gaps']))
+    return found, cov
+
+
+def confirm_range(S, info):
+    """format_source_range on the real library, spliced and parsed"""
+    src, a, b = info['source'], info['start'], info['end']
+    bs = src.encode('utf-8')
+    t_src = deep.tree_of(S, src)
+    for w in (info['width'], 80, 20, 0):
+        r = S.driver.call('format_range', hexs(src), a, b, min(w, 1 << 30), info.get('tab', 2))
+        if r[0] in ('panic', 'abort'):
+            return dict(api='Typstyle::format_source_range', source=src, start=a, end=b, width=w, what='format_source_range panics on %s %d..%d' % (show(src), a, b))
+        if r[0] != 'ok':
+            continue
+        rs, re_ = int(r[1]), int(r[2])
+        out = bs[:rs].decode('utf-8', 'replace') + unhexs(r[3]) + bs[re_:].decode('utf-8', 'replace')
+        t_out = deep.tree_of(S, out)
+        if t_out is None:
+            return dict(api='Typstyle::format_source_range', source=src, start=a, end=b, width=w, output=out,
+                        what='formatting the range %d..%d of %s (width %d) and splicing the result gives text with syntax errors: %s' % (a, b, show(src), w, show(out)))
+        d = first_difference(norm_tree(t_src), norm_tree(t_out)) if t_src is not None else None
+        if d:
+            return dict(api='Typstyle::format_source_range', source=src, start=a, end=b, width=w, output=out, difference=d,
+                        what='formatting the range %d..%d of %s (width %d) and splicing the result changes the syntax tree: %s (%s)' % (a, b, show(src), w, show(out), d))
+    return None
+
+
+def report_range(S, found):
+    groups = {}
+    for lab, info in found:
+        groups.setdefault((lab, site_of(info.get('source', ''))), []).append(info)
+    for (lab, site), infos in sorted(groups.items()):
+        hit = None
+        for info in infos[:8]:
+            w = confirm_range(S, info)
+            if w:
+                hit = (info, w)
+                break
+        key = '%s:%s' % (lab, site)
+        if hit:
+            S.violation(key, '%s: %s' % (key, hit[1]['what']), dict(api=hit[1], model={k: v for k, v in hit[0].items() if k not in ('spliced',)}))
+        else:
+            S.inconclusive.append('%s: no solver model reproduced natively (%r)' % (key, {k: v for k, v in infos[0].items() if k not in ('spliced', 'text')}))
+
+
 def confirm(S, info, prop='C03'):
     """the same on the real library at the width of the task and a few others"""
     src = info['source']
